@@ -39,8 +39,10 @@ VARIABLES hist,     \* sequence over versions 0..: A's balance in the fully sign
           paid,     \* P -> withdrawn
           acct,     \* P -> ledger account
           now,
-          nreg      \* number of outdated registrations by the adversary
-vars == <<hist, fin, cur, flight, phase, reg, regAt, concl, paid, acct, now, nreg>>
+          nreg,     \* number of outdated registrations by the adversary
+          cut       \* a payment was made whose calls' contexts ended at the moment of enabling (PayCut; at most one per
+                    \* behaviour).  Nothing in the design depends on it, but everything after it is explored again
+vars == <<hist, fin, cur, flight, phase, reg, regAt, concl, paid, acct, now, nreg, cut>>
 
 NoFlight == [k |-> "none", by |-> "none", a |-> -1, fin |-> FALSE]
 BalA(v) == hist[v + 1]
@@ -54,25 +56,26 @@ Init == /\ hist = <<A0>> /\ fin = FALSE
         /\ reg = -1 /\ regAt = 0 /\ concl = -1
         /\ paid = [p \in P |-> FALSE]
         /\ acct = [A |-> Deposit - (A0 + FShift), B |-> Deposit - (B0 - FShift)]
-        /\ now = 0 /\ nreg = 0
+        /\ now = 0 /\ nreg = 0 /\ cut = FALSE
 
 CanUpdate == /\ flight.k = "none" /\ ~fin /\ concl = -1
              /\ \A p \in P : phase[p] = "Acting"
              /\ cur["A"] = Newest /\ cur["B"] = Newest /\ Newest < MaxVer
 
 (* a complete payment: proposal, answer and response delivered at once *)
-Pay(p, amt, accept) ==
+PayBody(p, amt, accept) ==
   /\ CanUpdate /\ amt \in 1..2 /\ Bal(p, Newest) >= amt
   /\ IF accept
      THEN /\ hist' = Append(hist, IF p = "A" THEN BalA(Newest) - amt ELSE BalA(Newest) + amt)
           /\ cur' = [q \in P |-> Newest + 1]
      ELSE UNCHANGED <<hist, cur>>
   /\ UNCHANGED <<fin, flight, phase, reg, regAt, concl, paid, acct, now, nreg>>
+Pay(p, amt, accept) == PayBody(p, amt, accept) /\ UNCHANGED cut
 
 (* the same accepted payment, but the contexts the users passed to Update and to Accept end at the very moment the    *)
 (* new state is enabled at the respective client (a deadline that fires, a user who gives up): the state is agreed,   *)
 (* whatever the calls return                                                                                           *)
-PayCut(p, amt) == Pay(p, amt, TRUE)
+PayCut(p, amt) == ~cut /\ PayBody(p, amt, TRUE) /\ cut' = TRUE
 
 (* a final update by p that also pays amt (0 or 1), accepted *)
 Finalize(p, amt) ==
@@ -80,27 +83,27 @@ Finalize(p, amt) ==
   /\ hist' = Append(hist, IF p = "A" THEN BalA(Newest) - amt ELSE BalA(Newest) + amt) /\ fin' = TRUE
   /\ cur' = [q \in P |-> Newest + 1]
   /\ phase' = [q \in P |-> "Final"]
-  /\ UNCHANGED <<flight, reg, regAt, concl, paid, acct, now, nreg>>
+  /\ UNCHANGED <<flight, reg, regAt, concl, paid, acct, now, nreg, cut>>
 
 (* the same payment in three environment steps: the update stays in flight.  amt = -1: the proposer asks to    *)
 (* RECEIVE one unit (a request for payment, legal without an app)                                                  *)
 Propose(p, amt) ==
   /\ CanUpdate /\ amt \in {-1, 1, 2} /\ Bal(p, Newest) >= amt /\ Bal(Peer(p), Newest) >= -amt
   /\ flight' = [k |-> "upd", by |-> p, a |-> IF p = "A" THEN BalA(Newest) - amt ELSE BalA(Newest) + amt, fin |-> FALSE]
-  /\ UNCHANGED <<hist, fin, cur, phase, reg, regAt, concl, paid, acct, now, nreg>>
+  /\ UNCHANGED <<hist, fin, cur, phase, reg, regAt, concl, paid, acct, now, nreg, cut>>
 (* the responder's handler accepts: it now holds the fully signed new state; the response is in flight *)
 AcceptInFlight ==
   /\ flight.k = "upd" /\ phase[Peer(flight.by)] = "Acting"
   /\ hist' = Append(hist, flight.a)
   /\ cur' = [cur EXCEPT ![Peer(flight.by)] = Newest + 1]
   /\ flight' = [flight EXCEPT !.k = "acc"]
-  /\ UNCHANGED <<fin, phase, reg, regAt, concl, paid, acct, now, nreg>>
+  /\ UNCHANGED <<fin, phase, reg, regAt, concl, paid, acct, now, nreg, cut>>
 (* the response reaches the proposer: it enables the state if its machine is still in the signing phase *)
 DeliverAcc ==
   /\ flight.k = "acc"
   /\ cur' = IF phase[flight.by] = "Acting" THEN [cur EXCEPT ![flight.by] = Newest] ELSE cur
   /\ flight' = NoFlight
-  /\ UNCHANGED <<hist, fin, phase, reg, regAt, concl, paid, acct, now, nreg>>
+  /\ UNCHANGED <<hist, fin, phase, reg, regAt, concl, paid, acct, now, nreg, cut>>
 
 (***************************************************************************)
 (* Ledger                                                                  *)
@@ -114,7 +117,7 @@ AdvRegister(v) ==
   /\ Adversary /\ nreg < 2
   /\ v \in 0..(cur["B"] - 1)               \* an EARLIER fully signed state the adversary holds
   /\ RegisterOK(v)
-  /\ nreg' = nreg + 1
+  /\ nreg' = nreg + 1 /\ UNCHANGED cut
   /\ reg' = IF v < cur["A"] THEN cur["A"] ELSE v
   /\ regAt' = now
   /\ phase' = [p \in P |-> IF phase[p] \in {"Acting", "Final"} /\ ~(flight.k # "none" /\ flight.by = p) THEN "Registered" ELSE phase[p]]
@@ -126,7 +129,7 @@ AdvConclude ==
   /\ concl' = reg
   /\ paid' = [paid EXCEPT !["B"] = TRUE]
   /\ acct' = [acct EXCEPT !["B"] = @ + Bal("B", reg)]
-  /\ UNCHANGED <<hist, fin, cur, flight, phase, reg, regAt, now, nreg>>
+  /\ UNCHANGED <<hist, fin, cur, flight, phase, reg, regAt, now, nreg, cut>>
 
 (* B registers the outdated version v while the response to an update proposed by A is in flight, and that      *)
 (* response reaches A after A's refutation was accepted by the ledger but before the ledger's event for it is     *)
@@ -136,7 +139,7 @@ AdvRegisterEcho(v) ==
   /\ Adversary /\ nreg < 2
   /\ flight.k = "acc" /\ flight.by = "A" /\ phase["A"] = "Acting"
   /\ v \in 0..(cur["A"] - 1) /\ RegisterOK(v)
-  /\ nreg' = nreg + 1
+  /\ nreg' = nreg + 1 /\ UNCHANGED cut
   /\ cur' = [cur EXCEPT !["A"] = Newest]
   /\ flight' = NoFlight
   /\ reg' = Newest /\ regAt' = now
@@ -145,7 +148,7 @@ AdvRegisterEcho(v) ==
 
 Tick == /\ now < 3 * CD
         /\ now' = now + 1
-        /\ UNCHANGED <<hist, fin, cur, flight, phase, reg, regAt, concl, paid, acct, nreg>>
+        /\ UNCHANGED <<hist, fin, cur, flight, phase, reg, regAt, concl, paid, acct, nreg, cut>>
 
 (* Channel.Settle of p returns successfully.  Final state: concluded at once. Otherwise p registers its current    *)
 (* state (if nothing newer is registered), the call waits for the end of the challenge period (the driver advances *)
@@ -165,7 +168,7 @@ Settle(p) ==
         /\ paid' = [paid EXCEPT ![p] = TRUE]
         /\ acct' = [acct EXCEPT ![p] = @ + Bal(p, cv)]
         /\ phase' = [q \in P |-> IF q = p THEN "Withdrawn" ELSE IF phase[q] \in {"Acting", "Final"} /\ ~final THEN "Registered" ELSE phase[q]]
-  /\ UNCHANGED <<hist, fin, cur, flight, nreg>>
+  /\ UNCHANGED <<hist, fin, cur, flight, nreg, cut>>
 
 Next ==
   \/ \E p \in P, amt \in 1..2, acc \in BOOLEAN : Pay(p, amt, acc)
